@@ -3,19 +3,32 @@
 spec WrapC / CppLibCalls: a library is a set of signatures over 20 parameter kinds placed in the
 class family K0, K1:K0, K2:K0, KB, Mix:K0,KB, K3:virtual K0; every function has one defined meaning
 Sem (result = Encode(ret, Mix(sigId, thisState, args)), state' = state + Weight(args)) in TLA+ and
-in the generated C++ body.  TLC enumerates (1) every signature of the tier's alphabet with boundary
-argument tuples as single-call behaviours (exhaustive BFS) and (2) simulated call sequences over
-small libraries with overload sets in which every wrapper variant is called at least twice on
-different objects / arguments, checking the model invariants in every state, and dumps every
-complete behaviour with the expected result and object states after every step.
+in the generated C++ body.  The K0 part of every object owns a payload with move semantics; strings
+include UTF-8 multibyte text and an embedded NUL followed by more data.  TLC enumerates (1) every
+signature of the tier's alphabet with boundary argument tuples as single-call behaviours
+(exhaustive BFS), (2) overload sets: every pair of parameter kinds overloaded against each other
+under one name, and the conversion-related kinds (char pointer / std::string / bool, object pointer /
+bool, integer widths, float / double, enum / int) as complete sets, every variant of every member
+called (exhaustive BFS), and (3) simulated call sequences over small libraries in which every
+wrapper variant is called at least twice on different objects / arguments, checking the model
+invariants in every state, and dumps every complete behaviour with the expected result and the
+state (st, bst, payload) of EVERY live object - `this`, arguments, bystanders - after every step.
 
 Replay: the libraries are packed into class families and rendered (vf/wraplib.py) to one header +
 implementation + native driver per batch.  `interrogate` runs on the header for every option set,
 the generated wrapper file is compiled and linked with the implementation, and a child process
 (harness/wrapc_drive.py) executes every behaviour through the wrappers, finding and calling them
-THROUGH THE DATABASE ONLY.  Return values, object states read back through the published data
-members after every step, and the ndjson log of the instrumented bodies are compared with the
-spec and with the same calls made natively (spec != native => MachineryError)."""
+THROUGH THE DATABASE ONLY (function name, parameter / return types, parameter names, is_this and
+optional flags).  Return values, the state of every live object read back through the published
+accessors after every step, and the ndjson log of the instrumented bodies (which names the
+function that ran and the arguments it received) are compared with the spec and with the same
+calls made natively (spec != native => MachineryError).
+
+The C calling convention passes and returns strings as NUL-terminated char *: under -c an argument
+with an embedded NUL is not expressible (such behaviours are left out for -c; its prefix is in the
+alphabet anyway) and a std::string result is observed as CppLibCalls!CView(result), i.e. up to the
+first NUL.  The -python back-end carries lengths (s# / PyUnicode_FromStringAndSize), so there the
+full value, embedded NUL included, is demanded for std::string parameters and results."""
 import json, os, subprocess, sys, threading, collections
 from ..common import MachineryError, REPO, HARNESS, VERIF, NCPU
 from .. import build, tlc, run, idb
@@ -64,6 +77,11 @@ def must(cmd, cwd, what):
     rc, out = sh(cmd, cwd)
     if rc != 0:
         raise MachineryError("%s failed: %s\n%s" % (what, " ".join(cmd), out[-3000:]))
+
+
+def passes_nul(b):
+    """does the behaviour pass a std::string with an embedded NUL?  (not expressible through a char * parameter)"""
+    return any(isinstance(a, str) and "\0" in a for st in b["steps"] for a in st.get("args", []))
 
 
 def uses_string(b, fns):
@@ -192,11 +210,6 @@ class BatchRun:
         extra = []
         if opt["backend"] == "python":
             extra = ["-I" + pyinc()]
-            if opt["string"]:
-                # C03 (not this property): `-python -string` spells basic_string without std::.  The
-                # replay supplies the name so that the wrappers' behaviour can still be judged.
-                open(os.path.join(sub, "pyshim.h"), "w").write("#include <string>\nusing std::basic_string;\n")
-                extra += ["-include", os.path.join(sub, "pyshim.h")]
         rc, out = sh(cxx + extra + ["-c", src, "-o", "wrap.o"], sub)
         if rc != 0:
             res["fatal"] = "generated wrapper code does not compile (%s): %s" % (" ".join(opt["args"]), out[:1200])
@@ -212,6 +225,10 @@ class BatchRun:
             return res
         json.dump(db, open(os.path.join(sub, "db.json"), "w"))
         todo = [x for x in self.beh if opt["string"] or not uses_string(x, self.fns)]
+        if opt["backend"] == "c":
+            # the C calling convention passes strings as NUL-terminated char *: an argument with an embedded NUL
+            # cannot be expressed (it IS its prefix, a case the alphabet contains anyway)
+            todo = [x for x in todo if not passes_nul(x)]
         res["skipped"] = len(self.beh) - len(todo)
         res["todo"] = [x["b"] for x in todo]
         skip = set(x["b"] for x in self.beh) - set(res["todo"])
@@ -289,6 +306,9 @@ def judge(ctx, br, res, stats):
             else:
                 n += 1
                 want, got = e["ret"], r["ret"]
+                if opt["backend"] == "c":
+                    # ... and a std::string result reaches a C caller as char *: CppLibCalls!CView, cut at the NUL
+                    want = W.c_view(want)
                 if st["op"] == "call" and st["fk"] == "setter":
                     want, got = st["rb"], got.get("rb") if isinstance(got, dict) else got
                     if st["data_kind"] == "objPtr":
@@ -296,7 +316,7 @@ def judge(ctx, br, res, stats):
                 if got != want:
                     what = "returned %r, C++ returns %r" % (got, want)
                 elif r["post"] != e["post"]:
-                    what = "object states [st, bst] after the call are %r, C++ leaves %r" % (r["post"], e["post"])
+                    what = "object states [st, bst, payload] after the call are %r, C++ leaves %r" % (r["post"], e["post"])
                 else:
                     wl, nl = res["log"].get((x["b"], i), []), br.native_log.get((x["b"], i), [])
                     if wl != nl:
@@ -351,12 +371,16 @@ def run_check(ctx):
     def t2():
         out["seq"] = tlc.run("WrapCSeqMC", "WrapC_seq", workers=workers, env={"VERIF_DUMP": dump2}, timeout=1500,
                              simulate=-(-int(nseq * 1.8) // workers), depth=30)
-    th = [threading.Thread(target=t1), threading.Thread(target=t2)]
+    dump3 = os.path.join(work, "ovl.ndjson")
+
+    def t3():
+        out["ovl"] = tlc.run("WrapCMC", "WrapC_ovl_" + tier, workers=workers, env={"VERIF_DUMP": dump3}, timeout=1500)
+    th = [threading.Thread(target=t1), threading.Thread(target=t2), threading.Thread(target=t3)]
     for t in th:
         t.start()
     for t in th:
         t.join()
-    for k in ("single", "seq"):
+    for k in ("single", "ovl", "seq"):
         res = out[k]
         ctx.add_tlc(res)
         if res.verdict == "invariant":
@@ -365,14 +389,16 @@ def run_check(ctx):
     try:
         single = tlc.read_dump(dump1)
         seqs = tlc.read_dump(dump2)
+        ovl = tlc.read_dump(dump3)
     except ValueError as e:
         raise MachineryError("a TLC dump is damaged (records of concurrent workers interleaved?): %s" % e)
     keyf = lambda r: json.dumps(r, sort_keys=True)
     single.sort(key=keyf)
+    ovl.sort(key=keyf)
     seqs = sorted({keyf(r): r for r in seqs}.values(), key=keyf)[:nseq]
     if len(seqs) < nseq // 2:
         raise MachineryError("simulation produced only %d complete call sequences" % len(seqs))
-    recs = single + seqs
+    recs = single + ovl + seqs
 
     # ---- render -----------------------------------------------------------------------------
     nb = 2 if tier == "quick" else 6
@@ -402,10 +428,10 @@ def run_check(ctx):
     for (br, o), res in zip(jobs, results):
         n = judge(ctx, br, res, stats)
         total += n
-        d = per_opt.setdefault(o["id"], dict(interrogate=" ".join(o["args"]) + " -nodb", steps=0, behaviours=0, skipped_no_string=0, crashed=0))
+        d = per_opt.setdefault(o["id"], dict(interrogate=" ".join(o["args"]) + " -nodb", steps=0, behaviours=0, skipped_outside_domain=0, crashed=0))
         d["steps"] += n
         d["behaviours"] += len(res.get("todo", []))
-        d["skipped_no_string"] += res["skipped"]
+        d["skipped_outside_domain"] += res["skipped"]
         d["crashed"] += len(res["crashed"])
 
     # ---- evidence -------------------------------------------------------------------------------
@@ -420,13 +446,17 @@ def run_check(ctx):
     ctx.cov["traces_validated_against_impl"] = sum(d["behaviours"] for d in per_opt.values())
     ctx.cov["distinct_nontrivial"] = len(calls)
     ctx.cov["exhaustive"] = True
-    ctx.cov["rule"] = ("single-call behaviours: TLC enumerates every signature of the tier's alphabet (specs/WrapCMC.tla: every "
+    ctx.cov["rule"] = ("overload sets: every pair of the 20 parameter kinds under one name (quick: each pair in one of nine "
+                       "flavour / class / position universes, thorough: in all nine) plus six groups of conversion-related "
+                       "kinds in six flavours, every variant called with the covering diagonal of boundary values, exhaustively; "
+                       "single-call behaviours: TLC enumerates every signature of the tier's alphabet (specs/WrapCMC.tla: every "
                        "return kind x parameter kind, every pair of parameter kinds thinned by a stride in the quick tier, every "
                        "flavour x return kind, constructors, operators, data member accessors) x a covering diagonal (thorough: "
                        "the full product) of boundary values x the objects it can be called on, exhaustively; sequences: TLC "
                        "-simulate, every wrapper variant called >= 2 times on different objects / arguments; distinct = distinct "
                        "(function, omitted defaults, this, arguments) calls; all are non-trivial (each executes a wrapper)")
-    ctx.notes.update(signatures=nsig, single_call_behaviours=len(single), sequences=len(seqs), sequences_with_overload_sets=novl,
+    ctx.notes.update(signatures=nsig, single_call_behaviours=len(single), overload_set_behaviours=len(ovl),
+                     overload_sets=len(set(json.dumps(r["lib"], sort_keys=True) for r in ovl)), sequences=len(seqs), sequences_with_overload_sets=novl,
                      batches=len(batches),
                      families=len(P.fams), generated_functions=sum(len(b.fns) for b in batches), option_sets=per_opt,
                      finding_class_failed_of_members=stats["prec"])
@@ -439,8 +469,6 @@ def run_check(ctx):
                          "written with -od and is what drives every call")
     ctx.notes["destructors"] = ("neither back-end emits a destructor wrapper (InterfaceMaker::record_object never records "
                                 "get_destructor()); Destroy(o) is performed by a helper of the generated library")
-    ctx.assumptions.append("python -string wrappers are compiled with a pre-included `using std::basic_string;` (C03: the "
-                           "generated code spells basic_string without std::)")
     for x in (beh[0], beh[len(single) // 2], beh[-1]):
         fns = next(br.fns for br in runs if x["fam"] in br.b.fams)
         ctx.sample(dict(script=[call_text(st, fns) for st in x["steps"]], expected=x["expect"]))
